@@ -48,7 +48,12 @@ import (
 	sdk "github.com/cosmos/cosmos-sdk/types"
 
 	chain "github.com/comdex-official/comdex/app"
+	"github.com/comdex-official/comdex/app/wasm/bindings"
 	auctionsV2types "github.com/comdex-official/comdex/x/auctionsV2/types"
+	"github.com/comdex-official/comdex/x/esm"
+	esmtypes "github.com/comdex-official/comdex/x/esm/types"
+	lockertypes "github.com/comdex-official/comdex/x/locker/types"
+	rewardstypes "github.com/comdex-official/comdex/x/rewards/types"
 	lendtypes "github.com/comdex-official/comdex/x/lend/types"
 	"github.com/comdex-official/comdex/x/liquidationsV2"
 	vaulttypes "github.com/comdex-official/comdex/x/vault/types"
@@ -62,7 +67,7 @@ type c15Item struct {
 
 type c15ErrCase struct {
 	unit, hook, state string
-	prep              func(t *testing.T, a *chain.App, ctx sdk.Context, e *c15Env) string
+	prep              func(t *testing.T, a *chain.App, ctx sdk.Context, e *c15Env) (sdk.Context, string) // reachable steps; may move the clock
 	items             func(a *chain.App, ctx sdk.Context, e *c15Env) []c15Item // in the order the hook visits them (snapshot)
 	direct            func(a *chain.App, ctx sdk.Context, e *c15Env, it c15Item) error
 }
@@ -78,7 +83,7 @@ func c15Items(marker string, ids []uint64) []c15Item {
 // ---------- reachable set-ups ----------
 
 // a third vault on a fixed-price extended pair whose debt asset has no oracle price
-func c15PrepFixedPriceVault(t *testing.T, a *chain.App, ctx sdk.Context, e *c15Env) string {
+func c15PrepFixedPriceVault(t *testing.T, a *chain.App, ctx sdk.Context, e *c15Env) (sdk.Context, string) {
 	a2 := e.assets[1]
 	c15SetPrice(a, ctx, a2, 2000000, true) // the collateral is worth 2 again while the vault is opened
 	debt := addAsset(t, a, ctx, "FIXSTABLE", "ufixstable", 1000000, false, true)
@@ -94,12 +99,12 @@ func c15PrepFixedPriceVault(t *testing.T, a *chain.App, ctx sdk.Context, e *c15E
 		t.Logf("fixed-price vault: %s %v", class, err)
 	}
 	c15SetPrice(a, ctx, a2, 1000000, true) // ... and falls to 1: ratio 1.0 < 1.5
-	return fmt.Sprintf("extpair=%d create=%s", ext, class)
+	return ctx, fmt.Sprintf("extpair=%d create=%s", ext, class)
 }
 
 // a third borrower takes almost all of the uasset1 liquidity of pool 1 (the collateral asset of the
 // fixture's two borrows), against uasset2 collateral, at a healthy ratio
-func c15PrepDrainedPool(t *testing.T, a *chain.App, ctx sdk.Context, e *c15Env) string {
+func c15PrepDrainedPool(t *testing.T, a *chain.App, ctx sdk.Context, e *c15Env) (sdk.Context, string) {
 	a1, a2 := e.assets[0], e.assets[1]
 	who := addrN(142)
 	fund(t, a, ctx, who, sdk.NewCoins(sdk.NewCoin("uasset2", sdk.NewInt(60000000000))))
@@ -121,12 +126,86 @@ func c15PrepDrainedPool(t *testing.T, a *chain.App, ctx sdk.Context, e *c15Env) 
 	}
 	// the collateral asset of the fixture's borrows loses another 20%: debt / collateral = 0.7 / 0.8 > 0.75
 	c15SetPrice(a, ctx, a1, 800000, true)
-	return fmt.Sprintf("lend=%s pair=%d borrow=%s pool_left=%s", lendClass, pairID, borrowClass, bal(a, ctx, modAddr("cmdx"), "uasset1"))
+	return ctx, fmt.Sprintf("lend=%s pair=%d borrow=%s pool_left=%s", lendClass, pairID, borrowClass, bal(a, ctx, modAddr("cmdx"), "uasset1"))
 }
 
-func c15PrepEnglishOff(t *testing.T, a *chain.App, ctx sdk.Context, e *c15Env) string {
+func c15PrepEnglishOff(t *testing.T, a *chain.App, ctx sdk.Context, e *c15Env) (sdk.Context, string) {
 	c15ApplyFault(t, a, ctx, e, "english-off", nil)
-	return "english-off"
+	return ctx, "english-off"
+}
+
+// two external locker-reward programmes, the first on the swap app (with a locker that earns), the
+// second - created later - on the lend app, whose kill switch is then turned on (MsgKillRequest);
+// one day later the first programme is due
+func c15PrepLockerRewards(t *testing.T, a *chain.App, ctx sdk.Context, e *c15Env) (sdk.Context, string) {
+	a1 := e.assets[0]
+	who := addrN(143)
+	fund(t, a, ctx, who, sdk.NewCoins(sdk.NewCoin("uasset1", sdk.NewInt(2000000000)), sdk.NewCoin("uasset3", sdk.NewInt(100000000))))
+	var log []string
+	for _, app := range []uint64{e.appSwap, e.appCommodo} {
+		if _, err := a.LockerKeeper.AddWhiteListedAsset(ctx, lockertypes.NewMsgAddWhiteListedAssetRequest(who.String(), app, a1)); err != nil {
+			log = append(log, "whitelist:"+err.Error())
+		}
+	}
+	if err := a.CollectorKeeper.WasmSetCollectorLookupTable(ctx, &bindings.MsgSetCollectorLookupTable{AppID: e.appSwap, CollectorAssetID: a1, SecondaryAssetID: e.assets[1],
+		SurplusThreshold: sdk.NewInt(10000000), DebtThreshold: sdk.NewInt(5000000), LockerSavingRate: c15Dec("0.1"), LotSize: sdk.NewInt(2000000),
+		BidFactor: c15Dec("0.01"), DebtLotSize: sdk.NewInt(2000000)}); err != nil {
+		log = append(log, "lookup:"+err.Error())
+	}
+	c, err, _ := execMsg(a, ctx, lockertypes.NewMsgCreateLockerRequest(who.String(), sdk.NewInt(1000000000), a1, e.appSwap))
+	if err != nil {
+		t.Logf("c15_locker: %v", err)
+	}
+	log = append(log, "locker:"+c)
+	for _, app := range []uint64{e.appSwap, e.appCommodo} {
+		c, err, _ = execMsg(a, ctx, rewardstypes.NewMsgActivateExternalRewardsLockers(app, a1, sdk.NewCoin("uasset3", sdk.NewInt(5000000)), 5, 1, who))
+		if err != nil {
+			t.Logf("c15_programme: %v", err)
+		}
+		log = append(log, "programme:"+c)
+	}
+	if err := a.EsmKeeper.SetKillSwitchData(ctx, esmtypes.KillSwitchParams{AppId: e.appCommodo, BreakerEnable: true}); err != nil {
+		log = append(log, "killswitch:"+err.Error())
+	}
+	ctx = ctx.WithBlockHeight(ctx.BlockHeight() + 14400).WithBlockTime(ctx.BlockTime().Add(24*time.Hour + 10*time.Minute))
+	return ctx, strings.Join(log, ",")
+}
+
+// emergency shutdown of the vault app: trigger parameters that give a rate for the oracle-priced debt
+// asset only, the deposit target reached (the state MsgDepositESM leaves), MsgExecuteESM, the price
+// snapshot taken by the hook in that block, and the cool-off period over.  The app has the two
+// fixture vaults and a third one on the fixed-price extended pair whose debt asset has neither a
+// rate nor a snapshot: the vault redemption step moves the first two vaults' collateral to the esm
+// module, writes the totals, deletes the vaults - and then fails on the third (esm.go:388-392)
+func c15PrepEsmVaultRedemption(t *testing.T, a *chain.App, ctx sdk.Context, e *c15Env) (sdk.Context, string) {
+	_, d := c15PrepFixedPriceVault(t, a, ctx, e)
+	var log []string
+	log = append(log, d)
+	target := sdk.NewCoin("uasset4", sdk.NewInt(100))
+	if err := a.EsmKeeper.AddESMTriggerParamsForApp(ctx, &bindings.MsgAddESMTriggerParams{AppID: e.appHarbor, TargetValue: target, CoolOffPeriod: 3600,
+		AssetID: []uint64{e.assets[2]}, Rates: []uint64{1000000}}); err != nil {
+		log = append(log, "params:"+err.Error())
+	}
+	a.EsmKeeper.SetCurrentDepositStats(ctx, esmtypes.CurrentDepositStats{AppId: e.appHarbor, Balance: target})
+	if err := a.EsmKeeper.ExecuteESM(ctx, e.user1.String(), e.appHarbor); err != nil {
+		log = append(log, "execute:"+err.Error())
+	}
+	esm.BeginBlocker(ctx, abci.RequestBeginBlock{}, a.EsmKeeper, a.AssetKeeper) // the snapshot block
+	st, _ := a.EsmKeeper.GetESMStatus(ctx, e.appHarbor)
+	log = append(log, "snapshot:"+b2s(st.SnapshotStatus))
+	ctx = ctx.WithBlockHeight(ctx.BlockHeight() + 1200).WithBlockTime(ctx.BlockTime().Add(2 * time.Hour))
+	return ctx, strings.Join(log, ",")
+}
+
+var c15RewardSteps = []struct {
+	marker string
+	run    func(a *chain.App, ctx sdk.Context) error
+}{
+	{"rewards/keeper.Keeper.DistributeExtRewardLocker", func(a *chain.App, ctx sdk.Context) error { return a.Rewardskeeper.DistributeExtRewardLocker(ctx) }},
+	{"rewards/keeper.Keeper.DistributeExtRewardVault", func(a *chain.App, ctx sdk.Context) error { return a.Rewardskeeper.DistributeExtRewardVault(ctx) }},
+	{"rewards/keeper.Keeper.DistributeExtRewardLend", func(a *chain.App, ctx sdk.Context) error { return a.Rewardskeeper.DistributeExtRewardLend(ctx) }},
+	{"rewards/keeper.Keeper.CombinePSMUserPositions", func(a *chain.App, ctx sdk.Context) error { return a.Rewardskeeper.CombinePSMUserPositions(ctx) }},
+	{"rewards/keeper.Keeper.DistributeExtRewardStableVault", func(a *chain.App, ctx sdk.Context) error { return a.Rewardskeeper.DistributeExtRewardStableVault(ctx) }},
 }
 
 func c15SurplusItems(a *chain.App, ctx sdk.Context, _ *c15Env) []c15Item {
@@ -169,6 +248,27 @@ var c15ErrCases = []c15ErrCase{
 		direct: func(a *chain.App, ctx sdk.Context, _ *c15Env, it c15Item) error {
 			return a.NewliqKeeper.CheckStatsForSurplusAndDebt(ctx, it.id>>32, it.id&0xffffffff)
 		}},
+	// the incentive hook: its steps in the order of x/rewards/abci.go (TriggerAndUpdateEpochInfos has no error result)
+	{unit: "rewards.hook", hook: "rewards.BeginBlocker", state: "p1",
+		prep: c15PrepLockerRewards,
+		items: func(a *chain.App, ctx sdk.Context, _ *c15Env) []c15Item {
+			var out []c15Item
+			for i, st := range c15RewardSteps {
+				out = append(out, c15Item{uint64(i), st.marker})
+			}
+			return out
+		},
+		direct: func(a *chain.App, ctx sdk.Context, _ *c15Env, it c15Item) error { return c15RewardSteps[it.id].run(a, ctx) }},
+	// the emergency-shutdown hook: the vault redemption step of the app under shutdown
+	{unit: "esm.hook", hook: "esm.BeginBlocker", state: "p1",
+		prep: c15PrepEsmVaultRedemption,
+		items: func(a *chain.App, ctx sdk.Context, e *c15Env) []c15Item {
+			return []c15Item{{e.appHarbor, "esm/keeper.Keeper.SetUpCollateralRedemptionForVault"}}
+		},
+		direct: func(a *chain.App, ctx sdk.Context, _ *c15Env, it c15Item) error {
+			params, _ := a.EsmKeeper.GetESMTriggerParams(ctx, it.id)
+			return a.EsmKeeper.SetUpCollateralRedemptionForVault(ctx, it.id, params)
+		}},
 }
 
 // number of descendants of wrap w (1-based) that open after consumption k
@@ -194,7 +294,7 @@ func c15RunErrorCases(t *testing.T, a *chain.App, tr *tracer, r *rng, only int, 
 			continue
 		}
 		ctx0, _ := states[ec.state].CacheContext()
-		detail := ec.prep(t, a, ctx0, env)
+		ctx0, detail := ec.prep(t, a, ctx0, env)
 		tr.p("case %d err %s %s %s %s", ci, ec.unit, ec.hook, ec.state, detail)
 		c15ErrorCase(t, a, tr, ec, ctx0, env)
 		ci++
